@@ -86,9 +86,12 @@ claim('C09',
       COMMON_NOTE + 'cst_to_ast is modelled together with the reduce functions (Front/Cst2Ast.v) and compared.',
       'Translation (tables regenerated from parser.rs) + Coq validator by vm_compute + Tier A theorems', 'DESIGN.md §5 C09')
 claim('C10',
-      'Coq theorem: validate_ast f = Ok v implies WF f (the property\'s conjunction, stated on the AST) and the validated file is the input. '
-      'Truthfulness of errors is decided per input by an oracle written against the property text on the token stream.',
-      COMMON_NOTE, 'Coq proof (induction over declarations; seen-table invariants) + differential with violation-injecting generator', 'DESIGN.md §5 C10')
+      'Coq theorems, for every AST: validate_ast f = Ok v implies WF f (the property\'s conjunction, stated on the AST) and the validated file '
+      'is the input; validate_ast f = Err e implies truthful f e — error variant by variant, the violation named by the error is present in '
+      'the file at the positions it carries (Ast/Truthful.v). Lifted to generate on source text (Ok => parsed file WF; a validation error is '
+      'returned unchanged and is truthful). That AST positions are the byte offsets of the tokens is Lex/Spans.v plus the check\'s oracle, '
+      'which is written against the property text on the token stream and run on violation-injected inputs.',
+      COMMON_NOTE, 'Coq proof (induction over declarations; seen-table invariants; error-path lemmas) + differential with violation-injecting generator', 'DESIGN.md §5 C10')
 claim('C11',
       'Coq theorem: a TableConflict of the model names a state of the machine, two items of it demanding different actions on one lookahead, '
       'and attaches the given file and machine. That the machine is the LALR(1) automaton is decided per grammar against the brute-force reference.',
